@@ -1,21 +1,30 @@
 #!/bin/bash
-# seedmatrix.sh: run every seeded change against the quick check of its own property; writes seeded/RESULTS.md
-cd /verif
-out=seeded/RESULTS.md
-echo "# Seeded changes vs. the quick check of their property" > $out
-echo "" >> $out
-echo "Produced by tools/seedmatrix.sh (applies seeded/<id>/patch.diff to /repo, runs ./check <ID> quick, reverts)." >> $out
-echo "" >> $out
-echo "| seed | property | exit | first failure line |" >> $out
-echo "|------|----------|------|--------------------|" >> $out
-for d in seeded/C*-*; do
-  s=$(basename $d); id=${s%-*}
-  git -C /repo diff --quiet || { echo "/repo dirty"; exit 2; }
-  git -C /repo apply /verif/$d/patch.diff || { echo "| $s | $id | patch-failed | |" >> $out; continue; }
-  o=$(./check $id quick 2>&1); rc=$?
-  git -C /repo checkout -- .
-  f=$(echo "$o" | grep -E "^failure:" | head -1 | cut -c10-230 | tr '|' '/' | tr '\n' ' ')
-  echo "| $s | $id | $rc | $f |" >> $out
-  echo "$s -> $rc"
+# seedmatrix.sh <scratch-dir>: run every seeded change against the quick check of its own property, on a scratch git
+# worktree of /repo and a scratch copy of /verif whose path dependencies point at that worktree (never on /repo itself).
+# Only the generated search counts (YV_SKIP_REGRESSION=1: saved regression inputs are skipped).  Writes <scratch-dir>/RESULTS.md
+# (copy it to seeded/RESULTS.md and run tools/mkseedtable.py).  Afterwards: git -C /repo worktree remove --force <scratch-dir>/repo; rm -rf <scratch-dir>
+set -u
+SC=${1:?usage: seedmatrix.sh <scratch-dir (outside /repo and /verif)>}
+mkdir -p "$SC"
+[ -d "$SC/repo" ] || { git -C /repo worktree add --detach "$SC/repo" HEAD -q && cp /repo/Cargo.lock "$SC/repo/"; }
+rsync -a --delete --exclude harness/target --exclude .git /verif/ "$SC/snap/"
+mkdir -p "$SC/verif"; rsync -a --exclude harness/target "$SC/snap/" "$SC/verif/"
+R="$SC/repo"; V="$SC/verif"
+sed "s#/repo#$R#g" "$SC/snap/harness/Cargo.toml" > "$V/harness/Cargo.toml"
+sed "s#/repo#$R#g" "$SC/snap/check" > "$V/check"
+out="$SC/RESULTS.md"
+{ echo "# Seeded changes vs. the quick check of their property"; echo
+  echo "Produced by tools/seedmatrix.sh on a scratch checkout of the repository (never /repo itself): each seeded/<id>/patch.diff is applied, ./check <ID> quick (VERIF_SEED=0, YV_SKIP_REGRESSION=1, so only the generated search counts) is run against it, and the patch is reverted."; echo
+  echo "| seed | property | exit | cases until failure | first failure line |"; echo "|------|----------|------|---------------------|--------------------|"; } > "$out"
+for d in "$SC"/snap/seeded/C*-*; do
+  s=$(basename "$d"); id=${s%-*}
+  git -C "$R" checkout -q -- .
+  git -C "$R" apply "$d/patch.diff" || { echo "| $s | $id | patch-failed | | |" >> "$out"; continue; }
+  o=$(cd "$V" && YV_SKIP_REGRESSION=1 VERIF_SEED=0 ./check "$id" quick 2>&1); rc=$?
+  git -C "$R" checkout -q -- .
+  n=$(echo "$o" | grep -oE 'evaluations=[0-9]+' | tail -1 | cut -d= -f2)
+  f=$(echo "$o" | grep -E "^failure:" | head -1 | cut -c10-200 | tr '|' '/' | tr '\n' ' ')
+  echo "| $s | $id | $rc | $n | $f |" >> "$out"
+  echo "$s -> $rc ($n)"
 done
-git -C /repo status --short
+echo ALLDONE
